@@ -21,6 +21,14 @@ def _work(job):
         row = runner.run_scenario(sc)
     except BaseException as e:  # noqa: BLE001
         return {'sid': sid, 'err': f'harness: {type(e).__name__}: {e}\n{traceback.format_exc()}', 'lines': None, 'nrec': 0}
+    if row['err'] == 'budget' and len(row['log']) <= MAXREC:
+        # the run never came to rest: its history up to the point where the harness stopped it is still followed
+        try:
+            lines = translate.translate(row, sid, cfg)
+            lines = [l for l in lines if l != 'rest'] + ['budgetExhausted']
+        except BaseException:  # noqa: BLE001
+            lines = None
+        return {'sid': sid, 'err': row['err'], 'lines': lines, 'nrec': len(row['log'])}
     if row['err']:
         return {'sid': sid, 'err': row['err'], 'lines': None, 'nrec': len(row['log'])}
     if len(row['log']) > MAXREC:
